@@ -34,15 +34,19 @@ deriving DecidableEq, Repr
 /-- fixed-point scale of the anomaly difference `_diff` (radians × 2^20) used by the correspondence stub -/
 def anomalyUnit : Int := 1048576
 
+/-- smallest integer above `π · anomalyUnit` (π · 2^20 = 3294198.2…): for an integer `d`, `d / 2^20 < π ↔ d < piUnit` -/
+def piUnit : Int := 3294199
+
 /-- the stub keeps the anomaly difference inside (−π, π): clamp to ±3 rad -/
 def clampAnom (x : Int) : Int := if x > 3 * anomalyUnit then 3 * anomalyUnit else if x < -(3 * anomalyUnit) then -(3 * anomalyUnit) else x
 
 def assemble (unit : Int) (sight umbra : Bool) (c : Chan) (F : Int → Int)
-    (G : Int → Bool → Int → Int → Int → Int → Bool)
-    (L : Int → Bool → Int → Int → Int → Int → Int → String) : Lst where
+    (G : Int → Int → Bool → Int → Int → Int → Int → Int → Bool)
+    (L : Int → Bool → Bool → Int → Int → Int → Int → Int → String) : Lst where
   f := F
-  guard := fun t => G unit sight (c.phi t) (c.phidot t) (c.rdot t) (F t)
-  label := fun p te => L unit umbra (c.phi te) (c.phidot te) (c.rdot te) (F te) (F p)
+  guard := fun p t => G unit piUnit sight (c.phi t) (c.phidot t) (c.rdot t) (F t) (F p)
+  -- `self._backward(end)`: the event state is earlier than `listener.prev`
+  label := fun p te => L unit umbra (decide (te < p)) (c.phi te) (c.phidot te) (c.rdot te) (F te) (F p)
 
 def viaF (c : Chan) (F : Int → Int → Int → Int → Int → Int → Int) : Int → Int :=
   fun t => F 1 (c.phi t) (c.phidot t) (c.rdot t) c.elev (c.mask t)
@@ -63,6 +67,46 @@ def mkLst (k : Kind) (c : Chan) : Lst :=
   | .light u => assemble 1 false u c c.phi lightGuard lightLabel
   | .terminator => assemble 1 false false c c.phi terminatorGuard terminatorLabel
   | .anomaly key => assemble anomalyUnit false false c (fun t => clampAnom (c.phi t)) anomalyGuard
-      (fun _ _ _ _ _ _ _ => anomalyLabel key)
+      (fun _ _ _ _ _ _ _ _ => anomalyLabel key)
+
+end BeyondVerif.Listen
+
+/-! ### `TopocentricFrame.visibility` (beyond/frames/stations.py) -/
+namespace BeyondVerif.Listen
+open BeyondVerif.Generated.ListenSrc
+
+/-- name of the listener class in the generated tables -/
+def Kind.pre : Kind → String
+  | .node => "node" | .apside => "apside" | .signal => "signal" | .mask => "mask" | .max => "max"
+  | .radvel _ => "radvel" | .light _ => "light" | .terminator => "terminator" | .anomaly _ => "anomaly"
+
+def kindOfPre? : String → Option Kind
+  | "signal" => some .signal | "mask" => some .mask | "max" => some .max | "node" => some .node
+  | "apside" => some .apside | "terminator" => some .terminator | _ => none
+
+/-- the event class of a listener kind, followed by its base classes -/
+def eventOf (k : Kind) : List String := (eventAncestors.lookup k.pre).getD []
+
+/-- `stations_listeners(sta)` as listener kinds -/
+def stationKinds (hasMask : Bool) : List Kind :=
+  (stationListeners ++ (if hasMask then stationListenersIfMask else [])).filterMap kindOfPre?
+
+/-- `isinstance(event_of_kind_k, event_classes)` with `event_classes = tuple(l.event for l in sta_list)` -/
+def passes (sta : List Kind) (k : Kind) : Bool :=
+  sta.any (fun sk => match (eventOf sk).head? with | some c => (eventOf k).contains c | none => false)
+
+/-- `TopocentricFrame.visibility(orb, listeners=…, events=…, dates=samples)`.
+`user`: the caller's listeners (`listeners=` followed by those given through `events=`), `sta`: the components of the
+state in the station's own frame, `events`: truth value of the `events` argument.
+Every point whose elevation `sta.phi` is negative is dropped unless its `event` is an instance of an event class of the
+STATION's own listeners. -/
+def visibility (user : List (Kind × Chan)) (sta : Chan) (hasMask events : Bool) (st : List (Option Int))
+    (samples : List Int) : List Item :=
+  let sk := if events then stationKinds hasMask else []
+  let all := user ++ sk.map (fun k => (k, sta))
+  (iter (all.map (fun kc => mkLst kc.1 kc.2)) st samples).filter (fun it =>
+    !(decide (sta.phi it.t < 0) && !(match it.ev with
+        | some (i, _) => (match all[i]? with | some kc => passes sk kc.1 | none => false)
+        | none => false)))
 
 end BeyondVerif.Listen
